@@ -136,15 +136,33 @@ def gen_unit_cases(r, n, tc):
                 cases.append(("PC 1 %s %s" % (sch, G.hx(raw)), meta))
             else:
                 cases.append(("PF 1 %s %s" % (sch, G.hx(c)), meta))
-        elif m < 0.94:
+        elif m < 0.93:
             sch, c, tag = G.gen_nested_case(r)
             cases.append(("NP 1 %s %s" % (sch, G.hx(c)), {"kind": "NP", "tag": tag, "conf": c}))
+        elif m < 0.95:
+            # successive key_lookup calls on one parser object through one string object; half of the time the texts
+            # have EQUAL length and the later one holds a keyword that the earlier one lacks at that place
+            n = r.randint(2, 4)
+            confs = [G.gen_struct_conf(r, keys, r.randint(2, 5)) for _ in range(n)]
+            if r.random() < 0.6:
+                ln = max(len(c) for c in confs)
+                confs = [c + b" " * (ln - len(c)) for c in confs]
+            calls = []
+            for c in confs:
+                kw = r.choice(G.first_tokens(c) or [b"width"]) if r.random() < 0.85 else r.choice(keys).encode()
+                calls.append((c, G.rcase(r, kw)))
+            cases.append(("KS " + "|".join("%s:%s:0" % (G.hx(c), G.hx(k)) for c, k in calls), {"kind": "KS", "calls": calls}))
         elif m < 0.965:
             # one parser object over a sequence of 2-4 configurations (accepted, rejected at any depth, misspelt)
             seq = [G.gen_nested_case(r) for _ in range(r.randint(2, 4))]
             sch = seq[0][0]
             cmd = r.choice(["MS", "MS", "PS"])
             confs = [c if cmd == "MS" else py_strip_comments(c) for _, c, _ in seq]
+            if r.random() < 0.5:
+                # equal length after comment stripping: pad the shorter ones with blanks at the end of their last line
+                ln = max(len(py_strip_comments(c)) for c in confs)
+                confs = [(c.rstrip(b"\n") + b" " * (ln - len(py_strip_comments(c))) + b"\n") if py_strip_comments(c).endswith(b"\n") and len(py_strip_comments(c)) < ln else c
+                         for c in confs]
             cases.append(("%s 1 %s %s" % (cmd, sch, "|".join(G.hx(c) for c in confs)),
                           {"kind": cmd, "tags": [t for _, _, t in seq], "confs": confs, "schema": sch}))
         else:
@@ -526,6 +544,52 @@ def gen_module_sequence(r):
     return earlier, last, "+".join(kinds) + " then " + lk
 
 
+def stripped_len(t):
+    return len(py_strip_comments(t.encode()))
+
+
+def pad_to(t, n):
+    """append blanks to the 'width 0.5' line (or the first line) until the comment-stripped length is n"""
+    k = n - stripped_len(t)
+    if k <= 0:
+        return t
+    i = t.find("width 0.5")
+    i = i + len("width 0.5") if i >= 0 else t.find("\n")
+    return t[:i] + " " * k + t[i:]
+
+
+def gen_equal_length_sequence(r):
+    """1-2 ACCEPTED configurations, then a last one of EQUAL comment-stripped length that has a module-level scalar
+       keyword (or a whole block) where the earlier ones have something else"""
+    glob = r.choice(["colvarsTrajFrequency 7", "colvarsRestartFrequency 30", "colvarsTrajFrequency 3\ncolvarsRestartFrequency 40", ""])
+    where = r.choice(["start", "end", "between"])
+    cvb, bb = cv_block("y", 2, r.randint(0, 3)), (bias_block("y") if r.random() < 0.7 else "")
+    if not glob and not bb:
+        bb = bias_block("y")
+    last = (glob + "\n" + cvb + bb) if where == "start" else (cvb + bb + glob + "\n") if where == "end" else (cvb + glob + "\n" + bb)
+    last = last.replace("\n\n", "\n")
+    earlier = []
+    for name, atom in [("x", 1), ("z", 3)][:r.randint(1, 2)]:
+        e = cv_block(name, atom, r.randint(0, 6)) + (bias_block(name) if r.random() < 0.5 else "")
+        earlier.append(e)
+    n = max(stripped_len(t) for t in earlier + [last])
+    earlier = [pad_to(t, n) for t in earlier]
+    last = pad_to(last, n)
+    return earlier, last, "equal-length accepted x%d then %s global(%s)" % (len(earlier), where, glob.replace("\n", "+") or "none")
+
+
+# the situation of the seeded change C09_3: same stripped length, the later configuration has a module-level keyword
+# (or a block) that the earlier one lacks at that place
+_E1 = cv_block("x", 1, 2)
+_L1 = cv_block("y", 2, 0) + "colvarsTrajFrequency 7\n"
+_L2 = bias_block("x").replace("hx", "hy")
+EQLEN_WITNESSES = [
+    ([pad_to(_E1, max(stripped_len(_E1), stripped_len(_L1)))], pad_to(_L1, max(stripped_len(_E1), stripped_len(_L1))),
+     "equal-length accepted then colvarsTrajFrequency at the end"),
+    ([pad_to(_E1, max(stripped_len(_E1), stripped_len(_L2)))], pad_to(_L2, max(stripped_len(_E1), stripped_len(_L2))),
+     "equal-length accepted colvar then bias block", [_E1]),
+]
+
 # the two situations of the seeded change C09_1, with other names for the last configuration
 SEQ_WITNESSES = [
     ([cv_block("x", 1, 6, "  wdth 0.5") + bias_block("x") + "colvarsRestartFrequenzy 50\n"],
@@ -894,6 +958,9 @@ def check(run):
         if kind == "KL":
             nontriv = io.startswith("found") or io.startswith("error")
             run.dist("unit:KL:" + meta.get("stream", "?").split(":")[0])
+        elif kind == "KS":
+            nontriv = "found" in io
+            run.dist("unit:KS:%d:%s" % (len(meta["calls"]), "equal-length" if len(set(len(c) for c, _ in meta["calls"])) == 1 else "any"))
         elif kind in ("MS", "PS"):
             nontriv = "reject" in io and "accept" in io
             run.dist("unit:%s:%s" % (kind, len(meta["confs"])))
@@ -930,6 +997,13 @@ def check(run):
                 bad = ("layout:key_lookup", "key_lookup of %r in %r gives %s, the value written is %r" % (G.unhx(w[2]), G.unhx(w[1]), io, meta["expect"]))
         elif kind in ("PF", "PC") and meta.get("tag") != "corpus":
             bad = flat_oracle(meta, io) or value_oracle(meta, io)
+        elif kind == "KS":
+            # every lookup of the sequence == the same lookup by a fresh parser object (asked from the implementation)
+            _, alone, _ = V.run_lines(unit, ["KL %s %s 0" % (G.hx(c), G.hx(k)) for c, k in meta["calls"]])
+            if io.split(";") != alone:
+                k = next(i for i, (x, y) in enumerate(zip(io.split(";"), alone)) if x != y) if len(io.split(";")) == len(alone) else 0
+                bad = ("sequence:lookup-depends-on-history", "key_lookup of %r in %r on a parser object that looked up other texts before gives %r, a fresh object gives %r" % (
+                    meta["calls"][k][1], meta["calls"][k][0], io.split(";")[k] if k < len(io.split(";")) else "?", alone[k]))
         elif kind == "MS":
             # verdict on configuration k == verdict of a fresh parser on it alone (asked from the implementation)
             _, alone, _ = V.run_lines(unit, ["NP 1 %s %s" % (meta["schema"], G.hx(c)) for c in meta["confs"]])
@@ -946,7 +1020,7 @@ def check(run):
         if bad:
             run.violation(bad[0], bad[1], {"kind": "unit", "case": c, "impl": io, "model": mo})
         if io != mo:
-            comp = "unit:" + {"KL": "key_lookup", "CB": "braces", "SC": "comments", "SS": "split_string", "PF": "strict:flat", "PC": "strict:flat", "NP": "strict:nested", "MS": "strict:sequence", "PS": "strict:sequence"}.get(kind, kind)
+            comp = "unit:" + {"KL": "key_lookup", "CB": "braces", "SC": "comments", "SS": "split_string", "PF": "strict:flat", "PC": "strict:flat", "NP": "strict:nested", "MS": "strict:sequence", "PS": "strict:sequence", "KS": "sequence"}.get(kind, kind)
             if kind in ("PF", "PC"):
                 # is it the pinned (lenient) value rule?  then the repaired defect is back: name it
                 rcl, ml, _ = V.run_lines(model, [c.replace(kind + " 1 ", kind + " 0 ", 1)])
@@ -1065,13 +1139,14 @@ def check(run):
     # sequences of configurations sent to ONE module instance: the verdict on the last one and the objects it creates
     # must be those of a fresh module given only that configuration (earlier ones use other names)
     nseq = 30 if quick else 400
-    seqs = list(SEQ_WITNESSES) + [gen_module_sequence(r) for _ in range(nseq)]
+    seqs = list(SEQ_WITNESSES) + [gen_module_sequence(r) for _ in range(nseq)] + \
+           list(EQLEN_WITNESSES) + [gen_equal_length_sequence(r) for _ in range(10 if quick else 150)]
     for sq in seqs:
         earlier, last, descr = sq[0], sq[1], sq[2]
         fresh_prefix = sq[3] if len(sq) > 3 else []
         head = ["natoms 4", "totalforces 1"] + ["pos %d %d %d %d" % (i + 1, i, 2 * i, 3 * i + 1) for i in range(4)] + ["new", "show tf 0 af 0"]
-        Ls = head + ["confighex %s" % G.hx(c.encode()) for c in earlier] + ["echo LAST", "confighex %s" % G.hx(last.encode()), "step"]
-        Lf = head + ["confighex %s" % G.hx(c.encode()) for c in fresh_prefix] + ["echo LAST", "confighex %s" % G.hx(last.encode()), "step"]
+        Ls = head + ["confighex %s" % G.hx(c.encode()) for c in earlier] + ["echo LAST", "quiet 0", "confighex %s" % G.hx(last.encode()), "quiet 1", "step"]
+        Lf = head + ["confighex %s" % G.hx(c.encode()) for c in fresh_prefix] + ["echo LAST", "quiet 0", "confighex %s" % G.hx(last.encode()), "quiet 1", "step"]
         rcs, os_, es = run_scn(unit, d, "seq", "\n".join(Ls) + "\n")
         rcf, of, ef = run_scn(unit, d, "seqf", "\n".join(Lf) + "\n")
         run.count("seq:" + descr + ":" + G.hx(last.encode())[:24], True)
@@ -1097,6 +1172,23 @@ def check(run):
         bf = before(of)
         if nf:
             nf = (nf[0] - bf[0], nf[1] - bf[1])
+        def effects(e):
+            # module-level settings that the configuration sets explicitly, as the parser echoes them ("# keyword = value")
+            return sorted(l for l in (e or "").split("\n") if re.match(r"^colvars: # \w+ = ", l) and not l.rstrip().endswith("[default]"))
+        eff_s, eff_f = effects(es), effects(ef)
+        if sts == stf and eff_s != eff_f:
+            run.violation("sequence:effect-depends-on-history", "the module-level settings made by the last configuration of a sequence (%s) are %s in a module that saw the earlier ones and %s in a fresh module" % (
+                descr, eff_s, eff_f), rp)
+        if "equal-length" in descr and sts == "ok":
+            # layout: one more blank in the last configuration must not change verdict, settings or objects
+            k = last.find(" ")
+            last2 = last[:k] + " " + last[k:]
+            L2 = head + ["confighex %s" % G.hx(c.encode()) for c in earlier] + ["echo LAST", "quiet 0", "confighex %s" % G.hx(last2.encode()), "quiet 1", "step"]
+            rc2, o2, e2 = run_scn(unit, d, "seq2", "\n".join(L2) + "\n")
+            st2, n2, objs2 = last_part(o2) if "STEP" in o2 else (None, None, None)
+            if (st2, n2, objs2, effects(e2)) != (sts, ns, objs_s, eff_s):
+                run.violation("layout:sequence:one-more-blank", "one more blank in the last configuration of a sequence (%s) changes the result: %s / %s instead of %s / %s" % (
+                    descr, st2, effects(e2), sts, eff_s), dict(rp, scenario_with_blank="\n".join(L2) + "\n"))
         if sts != stf:
             run.violation("sequence:verdict-depends-on-history", "the last configuration of a sequence (%s) is %s by a module that saw the earlier ones and %s by a fresh module" % (
                 descr, "accepted" if sts == "ok" else "refused (%s)" % sts, "accepted" if stf == "ok" else "refused (%s)" % stf), rp)
